@@ -257,7 +257,8 @@ def check_euler(ctx, c):
                            "dt:" + ("bare" if c["dt_a"] is None else "str") + "/" + ("bare" if c["dt_b"] is None else "str")])
     sa = sut_call("build A", B.build_system, A, c["route_a"])
     sb = sut_call("build B", B.build_system, Bs, c["route_b"])
-    dt = stable_dt(x, sc)
+    from vlib.ratelaw import tame_dt
+    dt = F(tame_dt(model, flags))
     N = c["steps"]
     ta = sut_call("simulate A", run_euler, sa, c["out_a"], dt, N, c["dt_a"], c["tmax_a"])
     # rendering B may additionally go through the coarse-graining path with the identity map (reflecting grids):
@@ -318,7 +319,8 @@ def check_out(ctx, c):
     diff = [k for k in ("time", "quantity") if c["out_a"][k] != c["out_b"][k]]
     ctx.note(c, len(diff) >= 1 and any(v != 0 for v in dx), ["out:" + c["engine"], "out:" + c["policy"]] + ["outdiff:" + k for k in diff])
     system = sut_call("build", B.build_system, spec, "ctor")
-    dt = stable_dt(x, sc)
+    from vlib.ratelaw import tame_dt
+    dt = F(tame_dt(model))
     N = c["steps"]
     tmax = dt * (F(N) + F(1, 2))
     res = []
